@@ -22,6 +22,7 @@ import (
 	"sort"
 	"strings"
 	"sync"
+	"syscall"
 	"time"
 
 	"github.com/spf13/afero/mem"
@@ -62,12 +63,30 @@ func (m *MemMapFs) Create(name string) (File, error) {
 		// handles that are already open on it keep referring to the same file.
 		mem.NewFileHandle(file).Truncate(0)
 	} else {
+		if m.lockfreeBelowFile(name) {
+			m.mu.Unlock()
+			return nil, &os.PathError{Op: "open", Path: name, Err: syscall.ENOTDIR}
+		}
 		file = mem.CreateFile(name)
 		m.getData()[name] = file
 		m.registerWithParent(file, 0)
 	}
 	m.mu.Unlock()
 	return mem.NewFileHandle(file), nil
+}
+
+// lockfreeBelowFile reports whether the nearest existing ancestor of name is a regular file.
+// Nothing can be created below a regular file: registerWithParent would turn it into a
+// directory. Like the operating system, the callers answer ENOTDIR.
+func (m *MemMapFs) lockfreeBelowFile(name string) bool {
+	for dir := filepath.Dir(name); ; dir = filepath.Dir(dir) {
+		if f, err := m.lockfreeOpen(dir); err == nil {
+			return !mem.GetFileInfo(f).IsDir()
+		}
+		if dir == filepath.Dir(dir) {
+			return false
+		}
+	}
 }
 
 func (m *MemMapFs) unRegisterWithParent(fileName string) error {
@@ -174,6 +193,10 @@ func (m *MemMapFs) Mkdir(name string, perm os.FileMode) error {
 		m.mu.Unlock()
 		return &os.PathError{Op: "mkdir", Path: name, Err: ErrFileExists}
 	}
+	if m.lockfreeBelowFile(name) {
+		m.mu.Unlock()
+		return &os.PathError{Op: "mkdir", Path: name, Err: syscall.ENOTDIR}
+	}
 	item := mem.CreateDir(name)
 	mem.SetMode(item, os.ModeDir|perm)
 	m.getData()[name] = item
@@ -252,6 +275,9 @@ func (m *MemMapFs) lockfreeOpenOrCreate(name string, flag int, perm os.FileMode)
 			return nil, &os.PathError{Op: "open", Path: name, Err: ErrFileExists}
 		}
 		return f, nil
+	}
+	if m.lockfreeBelowFile(norm) {
+		return nil, &os.PathError{Op: "open", Path: name, Err: syscall.ENOTDIR}
 	}
 	f := mem.CreateFile(norm)
 	mem.SetMode(f, perm)
@@ -351,6 +377,9 @@ func (m *MemMapFs) Rename(oldname, newname string) error {
 	if _, ok := m.getData()[oldname]; ok {
 		if oldname == newname {
 			return nil
+		}
+		if m.lockfreeBelowFile(newname) {
+			return &os.LinkError{Op: "rename", Old: oldname, New: newname, Err: syscall.ENOTDIR}
 		}
 		err := m.unRegisterWithParent(oldname)
 		if err != nil {
